@@ -3,14 +3,18 @@
    misbehaved at (hop, byte offset / stage) in the way `kind` says.  Accepted iff
      - the fetch returned (no hang, no panic),
      - a document was returned only if the peer delivered the whole response (`whole`),
-     - it took at most 3 timeouts per hop up to and including the faulty one.                    *)
+     - it took at most 3 timeouts per hop up to and including the faulty one,
+     - and what the fault left behind does not spoil a later fetch of the same address (`again`: the peer
+       has recovered; the answer is a document or an error, never neither).                          *)
 EXTENDS Integers, Sequences, TLC, Json
 Log == ndJsonDeserialize("trace.ndjson")
 VARIABLES l, bad
 vars == <<l, bad>>
 Why(e) == IF e.outcome = "panic" THEN "panic"
           ELSE IF e.outcome = "timeout" THEN "fetch did not return"
+          ELSE IF e.outcome = "nodoc" THEN "fetch returned neither a document nor an error"
           ELSE IF e.outcome = "ok" /\ ~e.whole THEN "document accepted from a truncated response"
+          ELSE IF e.again \in {"nodoc", "panic"} THEN "after the fault, asking for the same address again gave neither a document nor an error"
           ELSE IF e.ticks > 3 * (e.hop + 1) THEN "error returned too late"
           ELSE ""
 Init == l = 1 /\ bad = <<>>
